@@ -47,8 +47,8 @@ theorem eighAt_one (Afun : List 𝕜 → List 𝕜) (dnorm : List 𝕜 → ℝ) 
 /-- with one iteration and the trivial eigen-decomposition the Hermitian Krylov exponential returns whenever the start
 vector has positive norm -/
 theorem expm_ok_one {Afun : List 𝕜 → List 𝕜} {dnorm : List 𝕜 → ℝ} {dexp : 𝕜 → 𝕜} {dexpm : Mat 𝕜 → Mat 𝕜} {v : List 𝕜}
-    (hpos : 0 < dnorm v) (dt : 𝕜) : ∃ r, expmKrylov Afun dnorm triv1 dexp dexpm v dt 1 true = .ok r := by
-  obtain ⟨⟨alpha, beta, V⟩, hl⟩ := lanczos_isOk Afun dnorm (vstart := v) (numiter := 1) hpos (by omega)
+    (hN : NormContract dnorm) (hpos : 0 < dnorm v) (dt : 𝕜) : ∃ r, expmKrylov Afun dnorm triv1 dexp dexpm v dt 1 true = .ok r := by
+  obtain ⟨⟨alpha, beta, V⟩, hl⟩ := lanczos_isOk Afun dnorm (vstart := v) (numiter := 1) hpos (by omega) (hN.pos_dim hpos)
   have hE' := eighAt_one Afun dnorm v alpha beta V hl
   obtain ⟨h1, _, _, _, hVn⟩ := lanczos_sizes _ _ hl
   unfold expmKrylov
@@ -58,9 +58,9 @@ theorem expm_ok_one {Afun : List 𝕜 → List 𝕜} {dnorm : List 𝕜 → ℝ}
   rw [if_neg (by rw [hE'.Um]; omega), if_neg (by rw [hE'.wlen, hE'.Un]; simp), if_neg (by rw [hVn, hE'.Um]; simp)]
   exact ⟨_, rfl⟩
 
-theorem eigh_ok_one {Afun : List 𝕜 → List 𝕜} {dnorm : List 𝕜 → ℝ} {v : List 𝕜} (hpos : 0 < dnorm v) :
-    ∃ ws u, eighKrylov Afun dnorm triv1 v 1 1 = .ok (ws, u) ∧ ws ≠ [] ∧ u.n ≠ 0 := by
-  obtain ⟨⟨alpha, beta, V⟩, hl⟩ := lanczos_isOk Afun dnorm (vstart := v) (numiter := 1) hpos (by omega)
+theorem eigh_ok_one {Afun : List 𝕜 → List 𝕜} {dnorm : List 𝕜 → ℝ} {v : List 𝕜} (hN : NormContract dnorm)
+    (hpos : 0 < dnorm v) : ∃ ws u, eighKrylov Afun dnorm triv1 v 1 1 = .ok (ws, u) ∧ ws ≠ [] ∧ u.n ≠ 0 := by
+  obtain ⟨⟨alpha, beta, V⟩, hl⟩ := lanczos_isOk Afun dnorm (vstart := v) (numiter := 1) hpos (by omega) (hN.pos_dim hpos)
   have hE' := eighAt_one Afun dnorm v alpha beta V hl
   obtain ⟨h1, _, _, _, hVn⟩ := lanczos_sizes _ _ hl
   unfold eighKrylov
@@ -79,22 +79,22 @@ theorem eigh_ok_one {Afun : List 𝕜 → List 𝕜} {dnorm : List 𝕜 → ℝ}
 variable [DecidableEq 𝕜]
 
 theorem localStep_ok_one {k : EvoKernels 𝕜 ℝ} (hd : k.deigh = triv1) {L R : T3 𝕜} {W : T4 𝕜} {A : T3 𝕜}
-    (hpos : 0 < k.cnorm (flat3 A)) (dt : 𝕜) : ∃ A1, localHamiltonianStep k L R W A dt 1 = .ok A1 := by
-  obtain ⟨r, hr⟩ := expm_ok_one (Afun := localHFun L R W A.d0 A.d1 A.d2) (dexp := k.dexp) (dexpm := k.dexpm) hpos (-dt)
+    (hN : NormContract k.cnorm) (hpos : 0 < k.cnorm (flat3 A)) (dt : 𝕜) : ∃ A1, localHamiltonianStep k L R W A dt 1 = .ok A1 := by
+  obtain ⟨r, hr⟩ := expm_ok_one (Afun := localHFun L R W A.d0 A.d1 A.d2) (dexp := k.dexp) (dexpm := k.dexpm) hN hpos (-dt)
   unfold localHamiltonianStep
   rw [hd, hr]
   exact ⟨_, rfl⟩
 
 theorem bondStep_ok_one {k : EvoKernels 𝕜 ℝ} (hd : k.deigh = triv1) {L R : T3 𝕜} {C : Mat 𝕜}
-    (hpos : 0 < k.cnorm (flat2 C)) (dt : 𝕜) : ∃ C1, localBondStep k L R C dt 1 = .ok C1 := by
-  obtain ⟨r, hr⟩ := expm_ok_one (Afun := localBondFun L R C.m C.n) (dexp := k.dexp) (dexpm := k.dexpm) hpos (-dt)
+    (hN : NormContract k.cnorm) (hpos : 0 < k.cnorm (flat2 C)) (dt : 𝕜) : ∃ C1, localBondStep k L R C dt 1 = .ok C1 := by
+  obtain ⟨r, hr⟩ := expm_ok_one (Afun := localBondFun L R C.m C.n) (dexp := k.dexp) (dexpm := k.dexpm) hN hpos (-dt)
   unfold localBondStep
   rw [hd, hr]
   exact ⟨_, rfl⟩
 
 theorem minimize_ok_one {k : EvoKernels 𝕜 ℝ} (hd : k.deigh = triv1) {L R : T3 𝕜} {W : T4 𝕜} {A : T3 𝕜}
-    (hpos : 0 < k.cnorm (flat3 A)) : ∃ r, minimizeLocalEnergy k L R W A 1 = .ok r := by
-  obtain ⟨ws, u, hr, hws, hun⟩ := eigh_ok_one (Afun := localHFun L R W A.d0 A.d1 A.d2) hpos
+    (hN : NormContract k.cnorm) (hpos : 0 < k.cnorm (flat3 A)) : ∃ r, minimizeLocalEnergy k L R W A 1 = .ok r := by
+  obtain ⟨ws, u, hr, hws, hun⟩ := eigh_ok_one (Afun := localHFun L R W A.d0 A.d1 A.d2) hN hpos
   unfold minimizeLocalEnergy
   rw [hd, hr]
   cases ws with
